@@ -118,8 +118,12 @@ def _prune(d, keep):
     if len(fs) <= keep:
         return
     fs.sort(key=lambda f: os.path.getmtime(f))
+    now = time.time()
     for f in fs[:len(fs) - keep]:
-        try: os.unlink(f)
+        try:
+            # never remove what another check running at the same time may be using
+            if now - max(os.path.getmtime(f), os.path.getatime(f)) < 6 * 3600: continue
+            os.unlink(f)
         except OSError: pass
 
 
